@@ -193,9 +193,23 @@ class RecStrategy:
 
 # ----------------------------------------------------------------------------- building the optimizer of a case
 
+class UserQuad(nn.Module):
+    """a user-supplied kernel with rho'' > 0 (rho(x) = x + c x^2 / 2): the only way to reach the second-order branch of the
+    Triggs corrector — every library kernel has rho'' <= 0"""
+
+    def __init__(self, c=0.3):
+        super().__init__()
+        self.c = c
+
+    def forward(self, x):
+        return x + 0.5 * self.c * x * x
+
+
 def build_kernel(spec):
     if spec is None:
         return None
+    if spec["name"] == "UserQuad":
+        return UserQuad(*spec.get("args", []))
     import pypose.optim.kernel as K
     return getattr(K, spec["name"])(*spec.get("args", []))
 
@@ -1247,7 +1261,7 @@ def wdiag_configs(rng, quick):
 # ----------------------------------------------------------------------------- case generation
 
 KERNELS = [("Huber", [1.0]), ("Huber", [0.3]), ("PseudoHuber", [1.0]), ("Cauchy", [1.0]), ("Cauchy", [0.5]), ("SoftLOne", [1.0]),
-           ("Arctan", [1.0]), ("Tolerant", [1.0, -1.0]), ("Scale", [0.5])]
+           ("Arctan", [1.0]), ("Tolerant", [1.0, -1.0]), ("Scale", [0.5]), ("UserQuad", [0.3])]
 DAMPINGS = [1e-9, 1e-7, 1e-6, 1e-4, 1e-2, 0.1, 1.0, 10.0, 1e3]
 MINS = [1e-9, 1e-6, 1e-6, 1e-6, 1e-3, 0.1, 1.0, 50.0]
 MAXS = [1e32, 1e32, 1e32, 1e3, 10.0, 1.0, 0.5, 1e-3]
@@ -1307,7 +1321,7 @@ def gen_weight(rng, shapes, dtype, force_suffix=None, layouts=0.0, wide=False, l
     return ws
 
 
-def gen_targets(rng, outs, dtype, tmode, tscale=None, layouts=0.0, alias=0.0):
+def gen_targets(rng, outs, dtype, tmode, tscale=None, layouts=0.0, alias=0.0, first_scales=None):
     """targets at a chosen distance from the current outputs; tmode `peritem`: every batch item its own distance
     (exact / tiny / ordinary / large mixed in one batch)"""
     if tmode == "none":
@@ -1325,6 +1339,9 @@ def gen_targets(rng, outs, dtype, tmode, tscale=None, layouts=0.0, alias=0.0):
         if tmode == "peritem" and o.dim() >= 2:
             nit = int(math.prod(o.shape[:-1]))
             scv = torch.tensor([rng.choice([0.0, 0.0, 1e-15, 1e-9, 1e-3, 0.3, 3.0, 30.0]) for _ in range(nit)], dtype=torch.float64)
+            if first_scales:        # deterministic mix: the first items are exact / ordinary / far
+                for i_, v_ in enumerate(first_scales[:nit]):
+                    scv[i_] = v_
             sc = scv.reshape(tuple(o.shape[:-1]) + (1,))
         else:
             sc = tscale if tscale is not None else rng.choice(ladder)
@@ -1407,7 +1424,7 @@ def make_case(rng, **force):
             lf["layout"] = rng.choice(["slice", "step", "perm", "bslice"])
     # targets
     tmode = force.get("target", rng.choice(["near", "near", "near", "none", "mixed", "peritem", "peritem"]))
-    case["targets"] = gen_targets(rng, outs, dtype, tmode, force.get("tscale"), lprob, force.get("alias", 0.3))
+    case["targets"] = gen_targets(rng, outs, dtype, tmode, force.get("tscale"), lprob, force.get("alias", 0.3), force.get("first_scales"))
     if case["targets"] is not None:
         if not any(t is not None for t in case["targets"]) and rng.random() < 0.5:
             case["targets"] = None
@@ -1699,11 +1716,14 @@ def itemwise_cases(rng, n, kernels=False):
         plan = [(km, {"name": nm, "args": list(ar)}) for nm, ar in KERNELS for km in ("auto", "fast", "triggs")]
     for i, pl in enumerate(plan):
         B = rng.choice([2, 3, 4])
-        extra = {} if pl is None else {"kmode": pl[0], "kernel_spec": pl[1]}
+        extra = {} if pl is None else {"kmode": pl[0], "kernel_spec": pl[1], "ptypes": [["E", 3]], "depth": 2, "solver": "PINV",
+                                       "first_scales": [0.0, 0.3, 3.0], "dtype": "float64", "wide": 0.0}
+        if pl is not None:
+            B = 3
         c = make_case(rng, opt="GN", bshape=[B], full=True, ncalls=1, target="peritem", views=0.0, layouts=0.0, wlayouts=0.0,
-                      alias=0.0, frozen=None, nparams=rng.choice([1, 1, 2]), solver=rng.choice(["PINV", "LSTSQ", "default"]),
-                      wide=0.15, max_rows=60, max_cols=40, wsuffix=rng.choice([0, 0, 1, 1, 1]),
-                      **({"kmode": rng.choice(["none", "auto", "fast", "triggs", "list"])} if pl is None else extra))
+                      alias=0.0, frozen=None, max_rows=60, max_cols=40, wsuffix=rng.choice([0, 0, 1, 1, 1]),
+                      **({"kmode": rng.choice(["none", "auto", "fast", "triggs", "list"]), "nparams": rng.choice([1, 1, 2]),
+                          "solver": rng.choice(["PINV", "LSTSQ", "default"]), "wide": 0.15} if pl is None else extra))
         c["bshape"] = [B]
         c["kind"] = "itemwise"
         if any(not lf["rg"] for lf in c["leaves"] if lf["role"] == "param"):
